@@ -15,7 +15,8 @@ RULE = ('generated files in a scratch directory (1..4 trajectories of different 
         'data AND with the exact model (per-trajectory coring of the reference rule, per-part exact '
         'Gaussian filter within 5e-6, similarity to 5 decimals); the chunking helper for all '
         '(n states, chunk size) with n <= 40 (exhaustive) against the model split_array. Non-trivial: a '
-        'limits file with >= 2 trajectories is present.')
+        'limits file with >= 2 trajectories is present.'
+        ' Added classes: one- and two-frame multi-column files, a limits file rewritten in place with another partition of the same frames (loaded before), a trajectory exactly tcor frames long and constant, labels congruent modulo 2^16 in compare-discretization.')
 TRUSTED = ['click, the file system and the figure code are outside the model']
 ASSUMPTIONS = []
 BATCH = 30
